@@ -97,6 +97,20 @@ pub fn admissions_take() -> Vec<(u64, u64)> {
 }
 
 #[derive(Debug)]
+struct UpToFilter(usize);
+
+impl foyer::StorageFilterCondition for UpToFilter {
+    fn filter(&self, _: &Arc<foyer::Statistics>, _: u64, estimated_size: usize) -> foyer::StorageFilterResult {
+        lock_probe("AdmissionFilter");
+        if estimated_size <= self.0 {
+            foyer::StorageFilterResult::Admit
+        } else {
+            foyer::StorageFilterResult::Reject
+        }
+    }
+}
+
+#[derive(Debug)]
 struct ProbeFilter;
 
 impl foyer::StorageFilterCondition for ProbeFilter {
@@ -171,6 +185,9 @@ pub fn decode_val(v: &[u8]) -> Decoded {
 pub enum Admission {
     Admit,
     Reject,
+    /// Admits entries whose estimated size is at most this many bytes, rejects larger ones (a newer, larger
+    /// version of a key is then refused by the disk tier while the older, smaller one may still be queued).
+    UpTo(usize),
 }
 
 #[derive(Debug, Clone, PartialEq, Serialize, Deserialize)]
@@ -204,6 +221,10 @@ pub struct HybCfg {
     /// Exact device capacity in bytes (0: derived from blocks x block size + tombstone log).
     #[serde(default)]
     pub device_capacity: usize,
+    /// Submit queue size threshold of the block engine in bytes (0: the default of 16 MiB). Entries are shed
+    /// while more than this is queued; with a small value a leak in the accounting shows after a few entries.
+    #[serde(default)]
+    pub submit_threshold: usize,
 }
 
 impl HybCfg {
@@ -230,11 +251,19 @@ impl HybCfg {
             buffer_pool_size: 64 * 1024,
             noop_storage: false,
             device_capacity: 0,
+            submit_threshold: 0,
         }
     }
 
     pub fn max_entry_size(&self) -> usize {
         self.block_size - self.blob_index_size
+    }
+
+    /// Can a value of `sz` bytes never be written to the disk tier under this configuration (larger than a
+    /// block, or refused by the size-based admission filter)? Such an update invalidates the older on-disk
+    /// copy like a delete does.
+    pub fn unwritable(&self, sz: usize) -> bool {
+        sz + 64 > self.max_entry_size() || matches!(self.admission, Admission::UpTo(max) if sz > max)
     }
 
     pub fn name(&self) -> String {
@@ -244,7 +273,11 @@ impl HybCfg {
             if self.woi { "woi" } else { "woe" },
             if self.tombstone { "+tomb" } else { "" },
             if self.flush_on_close { "" } else { "-nofoc" },
-            if self.admission == Admission::Reject { "+reject" } else { "" },
+            match self.admission {
+                Admission::Reject => "+reject".to_string(),
+                Admission::UpTo(n) => format!("+upto{n}"),
+                Admission::Admit => String::new(),
+            },
             self.mem_algo.short(),
             self.mem_capacity,
             self.compression,
@@ -680,11 +713,16 @@ impl World {
                     2 => Compression::Lz4,
                     _ => Compression::None,
                 });
+            if cfg.submit_threshold > 0 {
+                engine = engine.with_submit_queue_size_threshold(cfg.submit_threshold);
+            }
             if cfg.fifo_picker_only {
                 engine = engine.with_eviction_pickers(vec![Box::new(FifoPicker::new(0.1))]);
             }
             if cfg.admission == Admission::Reject {
                 engine = engine.with_admission_filter(StorageFilter::new().with_condition(RejectAll));
+            } else if let Admission::UpTo(max) = cfg.admission {
+                engine = engine.with_admission_filter(StorageFilter::new().with_condition(UpToFilter(max)));
             } else {
                 // Always admits; only probes the lock monitor.
                 engine = engine.with_admission_filter(StorageFilter::new().with_condition(ProbeFilter));
@@ -872,7 +910,13 @@ impl World {
                 let ver = self.hist.lock().unwrap().new_ver(k);
                 let val = HVal(mkval(k, ver, sz, false));
                 let e = cache.storage_writer(k).insert(val);
+                // `None`: the admission filter (or the in-memory-only mode) refused the entry; nothing was
+                // inserted anywhere, so the call is no write of the history.
+                let refused = e.is_none();
                 drop(e);
+                if refused {
+                    return;
+                }
                 let in_mem = cache.memory().contains(&k);
                 self.hist.lock().unwrap().writes.push(WriteEv {
                     in_memory_after: Some(in_mem),
